@@ -1092,6 +1092,24 @@ def apply(data, known=None):
     return data
 
 
+def expand_known(F, path, targets):
+    """A copy of the anchored function `path` with its direct calls to the given (anchored) functions expanded in place - for rules
+    whose oracle is stated on the combined code (e.g. `Position::add` forwarding to `Position::new`).  The facts are not changed."""
+    f = copy.deepcopy(F.fn(path))
+    present = [t for t in targets if t in F.fns and t != path]
+    if not present:
+        return f
+    hi = HirInliner({})
+    for t in present:
+        try:
+            val = body_as_value(F.fns[t]["hir"], F.fns[t]["hir"]["body"])
+        except Cannot:
+            val = None
+        hi.bodies[t] = (F.fns[t], val)
+    _expand_in(f, set(present), F.fns, hi, {"inlined": {}, "inline_notes": []})
+    return f
+
+
 def _splice(n):
     """An expanded helper used as a statement (`helper(..);`) becomes the helper's statements in the enclosing block, so that
     rules which read a function as a sequence of top-level statements see the same sequence as before the extraction."""
